@@ -24,3 +24,23 @@ pub fn run(w: &[&str]) -> String {
     if r.is_err() { return "fmt-error".into() }
     hex(out.buf.as_bytes())
 }
+
+
+/// `displayat <pos> <hex>`: the Display of `Decoder::tokens()` taken from a decoder that has already been advanced to `pos`
+/// (the second way to obtain a `Tokenizer`), next to `minicbor::display(&bytes[pos..])`: `<hex of text> | <hex of text>`.
+pub fn run_at(w: &[&str]) -> String {
+    if w.len() != 2 { return "bad-op".into() }
+    let pos = match w[0].parse::<usize>() { Ok(p) => p, Err(_) => return "bad-op".into() };
+    let input = match unhex(w[1]) { Some(b) => b, None => return "bad-op".into() };
+    if pos > input.len() { return "bad-op".into() }
+    let lim = 64 * input.len() + 4096;
+    let mut a = Limited { buf: String::new(), limit: lim, overflow: false };
+    let mut d = minicbor::Decoder::new(&input);
+    d.set_position(pos);
+    let ra = write!(a, "{}", d.tokens());
+    let mut b = Limited { buf: String::new(), limit: lim, overflow: false };
+    let rb = write!(b, "{}", minicbor::display(&input[pos ..]));
+    if a.overflow || b.overflow { return "overflow".into() }
+    if ra.is_err() || rb.is_err() { return "fmt-error".into() }
+    format!("{} | {}", hex(a.buf.as_bytes()), hex(b.buf.as_bytes()))
+}
